@@ -24,7 +24,8 @@ RULE = ("domain systems: every sequence of <= 5 (quick) / <= 6 (thorough) molecu
         "B (two different residues), C (residues P,Q,P), D (two identical consecutive residues) and the unloaded solvent W, "
         "each with every permutation of every sub-list of the four topologies (65 loading orders, absent species are refused "
         "and the session goes on; quick tier at length 5: 12 full permutations + 6 shorter orders drawn per system) plus 3 orders "
-        "with near-miss topologies (one atom name changed: refused, state preserved); random longer domain systems over random species with disjoint signatures; wild systems "
+        "with near-miss topologies (one atom name changed: refused, state preserved); size-boundary systems with uninterrupted blocks "
+        "of 127-130 and 300 instances of a 1-, 2- and 3-residue species; random longer domain systems over random species with disjoint signatures; wild systems "
         "(shared signatures, same name+size with other atom names, truncated instances, topologies that merge residues) for K only. "
         "A case is one (file, loading order); non-trivial = distinct and at least one topology accepted or refused after a scan.")
 
@@ -879,6 +880,11 @@ def correspondence(ctx):
             smp["species"] = [sp["name"] + ":" + "/".join(r[0] for r in sp["residues"]) for sp in m["spec"]["species"]]
         ctx.sample(smp)
     codes, log = lib.run_coq_cases(ctx.cid, "K", HEADER, cases, shard=ctx.n(60, 120), timeout=1500)
+    if codes is None:
+        # a coqc process died (seen once on an overloaded machine): one retry with fewer parallel processes
+        # before this is reported as a broken correspondence
+        codes, log2 = lib.run_coq_cases(ctx.cid, "K", HEADER, cases, shard=ctx.n(60, 120), timeout=2400, jobs=6)
+        log = "retried after: " + log[-300:] + " | " + log2
     K = ctx.cov["K"]
     K["cases"] = len(cases)
     K["sessions"] = sessions
